@@ -6,6 +6,7 @@ import (
 	"time"
 
 	"github.com/inbucket/inbucket/v3/pkg/extension"
+	"github.com/inbucket/inbucket/v3/pkg/extension/event"
 	"github.com/inbucket/inbucket/v3/vsim/simnet"
 	"github.com/inbucket/inbucket/v3/vsim/simrt"
 )
@@ -31,10 +32,16 @@ type c06Case struct {
 	// silent until the server's timeout (stall).  Nothing of it may be stored.
 	Cut      string
 	CutAfter int
+	// Hook: "allow" | "defer" | "": an extension listener answering that for every MAIL
+	// (an allowed sender is allowed against the origin-domain policy, not against the size limit)
+	Hook string
+	// Pipe: the client sends the next command line (NOOP) in the same write as the
+	// end of the message data instead of waiting for the reply first
+	Pipe bool
 }
 
 func (k *c06Case) Describe() []string {
-	l := []string{fmt.Sprintf("MaxMessageBytes=%d store=%s %s", k.Limit, k.Store, profileString(k.Net))}
+	l := []string{fmt.Sprintf("MaxMessageBytes=%d store=%s %s mail-hook=%q next-command-sent-with-the-data=%v", k.Limit, k.Store, profileString(k.Net), k.Hook, k.Pipe)}
 	for i, m := range k.Msgs {
 		l = append(l, fmt.Sprintf("msg%d size=%d (limit%+d) SIZE=%s(%d) token=%s", i, m.Size, m.Size-k.Limit, m.SizeArg, m.Declared, m.Token))
 	}
@@ -93,6 +100,8 @@ func genC06(w *simrt.Choices, tier string, avoid map[string]bool) Case {
 	}
 	// always finish with a small message: the session must remain usable
 	k.Msgs = append(k.Msgs, c06Msg{Size: 180, Token: fmt.Sprintf("tok%d", n+1)})
+	k.Hook = []string{"", "", "allow", "defer"}[w.Choose(4)]
+	k.Pipe = w.Choose(3) == 0
 	if w.Choose(3) == 0 {
 		k.Cut = []string{"fin", "rst", "stall"}[w.Choose(3)]
 		k.CutAfter = []int{k.Limit / 2, k.Limit + 1, k.Limit + c06Slack + 50, 2 * k.Limit, 3*k.Limit + 5}[w.Choose(5)]
@@ -111,6 +120,16 @@ func runC06(c *Ctx, cs Case) {
 	if err != nil {
 		panic(err)
 	}
+	switch k.Hook {
+	case "allow":
+		eh.Events.BeforeMailFromAccepted.AddListener("c06", func(event.SMTPSession) *event.SMTPResponse {
+			return &event.SMTPResponse{Action: event.ActionAllow}
+		})
+	case "defer":
+		eh.Events.BeforeMailFromAccepted.AddListener("c06", func(event.SMTPSession) *event.SMTPResponse {
+			return &event.SMTPResponse{Action: event.ActionDefer}
+		})
+	}
 	root := baseRoot()
 	root.SMTP.MaxMessageBytes = k.Limit
 	root.SMTP.Timeout = 600 * time.Second
@@ -118,6 +137,7 @@ func runC06(c *Ctx, cs Case) {
 	mustStore := map[string]bool{}
 	mustNot := map[string]bool{}
 	sizes := map[string]int{}
+	boxOf := map[string]string{"tokcut": "boxcut"}
 	over, under := 0, 0
 	t := c.Go("client", func() {
 		cl, err := dialSMTP(c, "client", 900*time.Second)
@@ -134,6 +154,7 @@ func runC06(c *Ctx, cs Case) {
 				arg = " SIZE=" + strconv.Itoa(m.Declared)
 			}
 			sizes[m.Token] = m.Size
+			boxOf[m.Token] = "box" + strconv.Itoa(i)
 			rm := cl.cmd("MAIL FROM:<sender@origin.test>" + arg)
 			if rm.Err != nil {
 				c.Failf("session-unusable", "message %d: MAIL got no reply: %v", i, rm.Err)
@@ -167,10 +188,27 @@ func runC06(c *Ctx, cs Case) {
 				extra = 0
 			}
 			data := mkMessage(m.Token, "hdr@sender.test", []string{"box@example.com"}, extra, uint64(i))
-			fin := cl.sendData(data)
+			var fin reply
+			if k.Pipe {
+				cl.logf("-> <%d bytes of data> and \"NOOP\" in one write", len(data))
+				if err := cl.write(append(dotStuff(data), "NOOP\r\n"...)); err != nil {
+					c.Failf("session-unusable", "message %d: write failed: %v", i, err)
+					return
+				}
+				fin = cl.readReply()
+			} else {
+				fin = cl.sendData(data)
+			}
 			if fin.Err != nil {
 				c.Failf("session-unusable", "message %d (%d bytes, limit %d): no final reply after the data: %v", i, len(data), k.Limit, fin.Err)
 				return
+			}
+			if k.Pipe {
+				if rn := cl.readReply(); rn.Err != nil || rn.Code != 250 {
+					c.Failf("session-unusable", "message %d (%d bytes, limit %d, answered %s): the NOOP sent right behind the data was answered %s (%v)", i, len(data), k.Limit, fin, rn, rn.Err)
+					return
+				}
+				c.Stat("probe.command_sent_with_the_data", 1)
 			}
 			// "size" may count line ends as CRLF (as transmitted, RFC 1870) or as LF (as
 			// stored): a message is oversized for certain only by the smaller measure,
@@ -258,6 +296,9 @@ func runC06(c *Ctx, cs Case) {
 	for _, b := range names {
 		for _, m := range dump[b] {
 			found[m.Token] = true
+			if own, ok := boxOf[m.Token]; ok && own != b {
+				c.Failf("message-in-another-transactions-mailbox", "mailbox %q holds %s, which was addressed to %q only (an earlier transaction of the session had %q as its recipient)", b, m.Token, own, b)
+			}
 			if mustNot[m.Token] {
 				c.Failf("oversized-message-stored", "mailbox %q holds %s (%d bytes stored, %d transmitted); MaxMessageBytes is %d", b, m.Token, len(m.Source), sizes[m.Token], k.Limit)
 			}
